@@ -83,12 +83,15 @@ func NewDataset(store *Store, id string, internalID uint32, subjectIdentifier st
 func (ds *Dataset) StartFullSync() error {
 	// the sync state changes hands under the write lock: writers mark what they store as seen while they hold
 	// it, and a completion holds it from its scan to its last deletion
+	verifhook.Acquire(ds.store.database, "dataset.write", ds)
 	ds.WriteLock.Lock()
+	defer verifhook.Release(ds.store.database, "dataset.write", ds)
 	defer ds.WriteLock.Unlock()
 	return ds.startFullSyncLocked("")
 }
 
 func (ds *Dataset) startFullSyncLocked(fullSyncID string) error {
+	verifhook.Access(ds.store.database, "fullsync.state", true)
 	if ds.fullSyncStarted {
 		if ds.fullSyncLease != nil && ds.fullSyncLease.cancel != nil {
 			ds.fullSyncLease.cancel()
@@ -106,7 +109,9 @@ func (ds *Dataset) startFullSyncLocked(fullSyncID string) error {
 }
 
 func (ds *Dataset) StartFullSyncWithLease(fullSyncID string) error {
+	verifhook.Acquire(ds.store.database, "dataset.write", ds)
 	ds.WriteLock.Lock()
+	defer verifhook.Release(ds.store.database, "dataset.write", ds)
 	defer ds.WriteLock.Unlock()
 	if err := ds.startFullSyncLocked(fullSyncID); err != nil {
 		return err
@@ -145,10 +150,13 @@ func (ds *Dataset) RefreshFullSyncLease(fullSyncID string) error {
 				endTime, ok := ctx.Deadline()
 				// time out was the cause
 				now := time.Now()
+				verifhook.Acquire(ds.store.database, "dataset.write", ds)
 				ds.WriteLock.Lock()
+				defer verifhook.Release(ds.store.database, "dataset.write", ds)
 				defer ds.WriteLock.Unlock()
 				// only the lease that is still the dataset's current one may end the sync: a sync id can be
 				// used again (and is empty for job syncs), a lease object cannot
+				verifhook.Access(ds.store.database, "fullsync.state", true)
 				if ok && now.After(endTime) && ds.fullSyncLease == lease {
 					ds.fullSyncStarted = false
 					ds.fullSyncSeen = make(map[uint64]int)
@@ -198,7 +206,9 @@ func (ds *Dataset) CompleteFullSyncWithID(ctx context.Context, fullSyncID string
 func (ds *Dataset) completeFullSync(ctx context.Context, fullSyncID *string) error {
 	// scan, deletions and the release of the sync state are one step for writers (which add to the set of
 	// entities seen) and for a sync that starts meanwhile (which replaces it)
+	verifhook.Acquire(ds.store.database, "dataset.write", ds)
 	ds.WriteLock.Lock()
+	defer verifhook.Release(ds.store.database, "dataset.write", ds)
 	defer ds.WriteLock.Unlock()
 	if fullSyncID != nil && (!ds.fullSyncStarted || ds.fullSyncID != *fullSyncID) {
 		return fmt.Errorf("%w: sync-id %v", ErrFullSyncSuperseded, *fullSyncID)
@@ -223,6 +233,7 @@ func (ds *Dataset) completeFullSync(ctx context.Context, fullSyncID *string) err
 			return ctx.Err()
 		}
 		verifhook.Point(ds.store.database, "CompleteFullSync.scanEntity")
+		verifhook.Access(ds.store.database, "fullsync.state", false)
 		if !e.IsDeleted {
 			_, ok := ds.fullSyncSeen[e.InternalID]
 			if !ok {
@@ -394,6 +405,7 @@ func (ds *Dataset) StoreEntitiesWithTransaction(
 		e.InternalID = rid // set internal id on entity
 		e.Recorded = uint64(txnTime)
 
+		verifhook.Access(ds.store.database, "fullsync.state", ds.fullSyncStarted)
 		if ds.fullSyncStarted {
 			ds.fullSyncSeen[e.InternalID] = 1
 		}
